@@ -62,15 +62,17 @@ class Adapter(EnvAdapter):
         if tier == "quick":
             return [
                 c("default_rw10a10_t50", "default", 10, 10, 50, 3, 56, probe_every=6, probe_cap=64),
-                c("rw4a3_t7", "random_walk", 4, 3, 7, 12, 12, probe_cap=36),
+                c("rw4a3_t7", "random_walk", 4, 3, 7, 9, 12, probe_cap=36),
                 c("rw3a2_t3", "random_walk", 3, 2, 3, 12, 8),
                 c("rw3a2_t1", "random_walk", 3, 2, 1, 6, 5),
                 c("rw4a3_t2", "random_walk", 4, 3, 2, 6, 6, probe_cap=36),
                 c("rw6a3_t50", "random_walk", 6, 3, 50, 6, 56, probe_every=3, probe_cap=30),
                 c("un6a3_t50", "uniform", 6, 3, 50, 6, 56, probe_every=3, probe_cap=30),
                 c("un3a2_t2", "uniform", 3, 2, 2, 8, 6),
-                c("un4a3_t7", "uniform", 4, 3, 7, 12, 12, probe_cap=36),
+                c("un4a3_t7", "uniform", 4, 3, 7, 9, 12, probe_cap=36),
                 c("un10a10_t3", "uniform", 10, 10, 3, 3, 7, probe_cap=64),
+                # many resets of a crowded board (C10: agents boxed in at their start cell)
+                c("rw3a3_t7", "random_walk", 3, 3, 7, 72, 2, probe_cap=10),
             ]
         out = []
         for gen in ("random_walk", "uniform"):
